@@ -38,8 +38,10 @@ SiteCases(zzdummy) ==
      \o [x \in DOMAIN sl |->
         LET pre == t.prefixes[sl[x][1]] st == t.slices[sl[x][2]]
             before == pre \o st.pre
-        IN [e |-> "err", kind |-> "site", site |-> st.n, text |-> before \o st.open \o st.rest, doc |-> DocA,
-            lo |-> Len(before), hi |-> Len(before) + Len(st.open \o st.rest) - 1 - (IF st.rest[Len(st.rest)] = 41 THEN 1 ELSE 0),
+            \* the bracket pair ends at the "]" of rest (a ")" closing an outer call may follow it inside rest)
+            closeAt == CHOOSE i \in DOMAIN st.rest : st.rest[i] = 93 /\ \A j \in DOMAIN st.rest : st.rest[j] = 93 => j <= i
+        IN [e |-> "err", kind |-> "site", site |-> st.n, text |-> before \o st.open \o st.rest \o st.tail, doc |-> DocA,
+            lo |-> Len(before), hi |-> Len(before) + Len(st.open) + closeAt - 1,
             class |-> "slice"]]
 
 ASSUME ndJsonSerialize(IOEnv.OUT, IF IOEnv.MODE = "coord" THEN CoordCases(0) ELSE SiteCases(0))
